@@ -107,7 +107,7 @@ impl Property for C18 {
         "proptest single cases: token (ITS-deployed with 5 metadata classes incl. multi-byte names, decimals 0/255, 32/33-byte strings; Stellar asset contract registered as canonical; harness token with metadata ok / multi-byte / decimals 255 / empty name / empty symbol / decimals 256 registered as canonical; ITS-deployed token addressed through the canonical entry point; unregistered salt / asset) x caller (original deployer, another address reusing the salt) x destination (trusted, never trusted, removed again, the hub chain itself, empty) x gas (0, negative, affordable, exact balance, balance+1) x payer authorised or not. Oracle: success iff id registered for the caller's own (deployer,salt) / the canonical address, destination trusted, metadata representable, payer authorised a positive affordable payment; then returned id = independent derivation, exactly one contract_called to the hub whose payload equals the harness's own ABI encoding of SendToHub{destination, Deploy{id,name,symbol,decimals,no minter}}, gas_paid with the same payload hash and amount, token_deployment_started with the same values, and the only balance change is the gas payment; otherwise failure with the ledger snapshot identical. non-trivial = every case except the suite's fixed happy path; distinct by Debug hash"
     }
     fn cases(&self, tier: Tier) -> u64 {
-        tier.pick(5000, 60000)
+        tier.pick(15000, 150000)
     }
     fn strategy(&self, _tier: Tier) -> BoxedStrategy<Case> {
         (
